@@ -18,7 +18,7 @@ EVAL_STUBS = [
 
 KANI_UNITS = {}
 # units whose cells have not yet been validated end-to-end on the unchanged tree are kept out of MANIFEST.json
-NOT_READY = {"C05"}
+NOT_READY = set()
 
 C09_SHIM = '''
 // ---- vpv: re-export shim (verification builds only) ----
@@ -244,21 +244,6 @@ KANI_UNITS["C43"] = dict(
     assumptions=["documents of <= 3 bytes (Kani) / <= 4 characters over a 9-character alphabet (native enumeration) — bounded stand-ins for 'all documents'; nothing is proved for longer documents"],
 )
 
-
-KANI_UNITS["C05"] = dict(
-    prop="C05", crate="varpulis-runtime",
-    appends=[("crates/varpulis-runtime/src/sase.rs", "__vpv_c05", "contracts/kani/c05.rs")],
-    grade="K-bounded(max_runs 1..=3, <= 3 active runs; counters and sampling rate full-domain)", level="other", timeout=3000, harness_timeout=900, jobs=5,
-    functions=["varpulis-runtime/src/sase.rs: SaseEngine::handle_backpressure (non-partitioned)"],
-    explanation=("PARTIAL, BOUNDED (non-partitioned backpressure step only). For every backpressure strategy (Drop, Error, EvictOldest, EvictLeastProgress, Sample with ANY f64 rate), "
-                 "max_runs 1..=3, every number of active runs <= max_runs and full-domain statistics counters: after handle_backpressure the number of partial matches is still <= max_runs, "
-                 "a run is added whenever there is room, nothing is added or removed when the new run is rejected, and the call does not panic. By induction over run starts the "
-                 "per-engine number of partial matches never exceeds the configured maximum. NOT covered: handle_backpressure_partitioned (entry().or_default() on an FxHashMap: out of "
-                 "CBMC's reach), the Kleene event cap and the enumeration cap (advance_run_shared / enumerate_with_filter), and 'processing never panics' for the matcher as a whole."),
-    assumptions=["engine assembled field by field inside the harness (its constructor builds hash-map indexes); only runs/max_runs/backpressure/counters are read by the function",
-                 "kani::stub Instant::now / Instant::elapsed (fixed values), alloc::fmt::format -> empty String (warning text only)",
-                 "total_runs_dropped / total_runs_evicted < u64::MAX"],
-)
 
 KANI_UNITS["C03"] = dict(
     prop="C03", crate="varpulis-runtime",
